@@ -8,7 +8,8 @@ equality); every value is also compared with the dense reference.  Cached expres
 re-applied to NEW arrays of the same shapes.
 
 Expressions with constants (pool members tagged const:*): members that differ ONLY in which operands are
-constant, or only in the VALUES of the constant arrays in the same positions (the arrays are re-created for every
+constant (one, another one, two, ALL - the expression is then called without arguments -, or the empty set), or
+only in the VALUES of the constant arrays in the same positions (the arrays are re-created for every
 call: equal values never mean the same object, and a new object may well reuse the address of a freed one), next
 to the constant-free base and optionally under one shared option (via / prefer_einsum / implementation).  They are
 issued through array_contract_expression(constants={position: array}) and einsum_expression(constants=[...]) with
@@ -39,7 +40,7 @@ RULE = (
     "per case a pool of 3-12 contractions derived from one base network (3-6 tensors) by changing ONE cache-key "
     "component (output order, one size, optimize value incl. explicit path as tuple/list/list-of-lists/edge path, "
     "strip_exponent, implementation, prefer_einsum, sort_contraction_indices, relabelling, canonicalize=False with "
-    "hash-colliding labels, sizes d vs d+2**61-1, WHICH operands are constant (one, another one, two, none [empty set]) "
+    "hash-colliding labels, sizes d vs d+2**61-1, WHICH operands are constant (one, another one, two, ALL, none [empty set]) "
     "and the VALUES of the constant arrays in the same positions, the NAME of a user-registered preset); a history of 10-40 calls over array_contract_path / "
     "array_contract_expression / einsum_expression / array_contract / einsum in random order, each call made "
     "cached and uncached; distinct = distinct (pool, call sequence); non-trivial = some ordered pair (A then B) of "
@@ -48,15 +49,15 @@ RULE = (
 ASSUMPTIONS = [
     "deterministic optimizers only (greedy, optimal, explicit paths) so that path equality is meaningful",
     "module-level lru caches stay warm in both modes (they are part of what is observed; the value oracle covers them)",
-    "constants: at most two of the 3-6 operands are constant (an expression with ALL operands constant cannot be built on "
-    "the unchanged library: FINDINGS_widen-c.md F1, marked PENDING-FINDING in make_pool); strip_exponent and user supplied "
-    "implementations are not combined with constants (not part of / not usable with that signature)",
+    "constants: one, two or ALL of the 3-6 operands are constant (all: the expression takes no arguments, so 'new arrays' "
+    "means the same constants as new objects); strip_exponent and user supplied implementations are not combined with "
+    "constants (not part of / not usable with that signature)",
     "the two preset functions are the harness's own (fixed path families depending on the number of operands only), "
     "registered once per process and never re-registered",
 ]
 REQUIRED_MONITORS = [
     "custom_impl_observed", "cached_vs_uncached", "value_vs_E1", "path_equal", "expr_reused_new_arrays", "collision_pool", "near_pairs",
-    "constants_cached_vs_uncached", "constants_value_vs_E1", "constants_reused_new_arrays", "constants_near_pairs", "preset_path_model",
+    "constants_cached_vs_uncached", "constants_value_vs_E1", "constants_reused_new_arrays", "constants_near_pairs", "preset_path_model", "constants_all_operands",
 ]
 SHARD_TIMEOUT = {"quick": 400, "thorough": 3600}
 
@@ -187,11 +188,12 @@ def make_pool(rng, tier):
         elif what == "sort":
             members.append(member(base, kwargs={"sort_contraction_indices": True}, tag=what))
         elif what == "constants" and not any(m["tag"].startswith("const:") for m in members):
-            # members differing ONLY in the set of constant operands / in the constant arrays' values.
-            # PENDING-FINDING (FINDINGS_widen-c.md, F1): never ALL operands constant (n >= 3, at most two here)
+            # members differing ONLY in the set of constant operands / in the constant arrays' values; also ALL
+            # operands constant (the expression is then called without arguments; FINDINGS_widen-c.md F1, repaired)
             p, q = rng.sample(range(n), 2)
             kw = rng.choice([{}, {}, {"via": "VIA"}, {"prefer_einsum": True}, {"implementation": rng.choice(["cotengra", "autoray"])}])
-            variants = [("pos-a/values-1", [p], 1), ("pos-b/values-1", [q], 1), ("pos-a/values-2", [p], 2), ("pos-ab/values-1", sorted([p, q]), 1), ("empty", [], 1)]
+            variants = [("pos-a/values-1", [p], 1), ("pos-b/values-1", [q], 1), ("pos-a/values-2", [p], 2), ("pos-ab/values-1", sorted([p, q]), 1), ("empty", [], 1),
+                        ("all/values-1", list(range(n)), 1), ("all/values-2", list(range(n)), 2)]
             keep = [variants[0]] + rng.sample(variants[1:], rng.randint(1, 3))
             for name, consts, cseed in keep:
                 members.append(member(base, kwargs=dict(kw), tag="const:" + name, constants=consts, const_seed=cseed))
@@ -401,6 +403,8 @@ def run_history(rep, case):
         rep.mon("cached_vs_uncached")
         if has_const and api != "path":
             rep.mon("constants_cached_vs_uncached")
+            if len(m["constants"]) == net.N:
+                rep.mon("constants_all_operands")
             rep.count("constants_members", f"{api} | {m['tag']} | {sorted(m['kwargs'])}")
         rep.count("api", api)
         c, u = res[True], res[False]
